@@ -473,7 +473,7 @@ func oracleC03(e *Env, st *OracleState, i int, op *Op, res string) *Violation {
 				}
 				if !live {
 					// deleted: with zeroing, exactly its bytes are zero and nothing else changed
-					if op.Kind == "del" && ok && op.Zero && !op.Compact {
+					if op.Kind == "del" && ok && op.Zero {
 						for k := p.Off; k < p.Off+p.Size && k < int64(len(b)); k++ {
 							if b[k] != 0 {
 								return &Violation{Prop: "C03", Key: "C03:zeroing-incomplete", What: fmt.Sprintf("deleted object %d not zeroed at %d", p.ID, k), Op: i}
